@@ -213,7 +213,7 @@ impl Stream for Generated
 	}
 	fn count(&self, tier: Tier) -> u64
 	{
-		tier.pick(if self.structs { 3000 } else { 20_000 }, 300_000)
+		tier.pick(if self.structs { 10_000 } else { 100_000 }, 300_000)
 	}
 	fn choice_len(&self) -> usize
 	{
